@@ -168,8 +168,10 @@ theorem ts_hex_sound (ds : List Char) (h : '_' ∉ ds) (hn : ('0' :: 'x' :: ds).
 /-- regression witnesses for the repaired findings F02a (hex with e), F02b (BigInt), F02d (Rust hex …f32) -/
 example : tsParse "0xFE".toList = some ⟨254, 0⟩ ∧ tsParse "0x1e".toList = some ⟨30, 0⟩ ∧ tsParse "10n".toList = some ⟨10, 0⟩ ∧
     rsParse false "0xaf32".toList = some ⟨44850, 0⟩ ∧ rsParse true "2.5f32".toList = some ⟨25, 1⟩ := by decide
-/-- finding F02e (kept): a legacy octal literal (`017`, an error in strict mode / TypeScript) is skipped -/
-theorem F02e_witness : tsParse "017".toList = none := by decide
+/-- finding F02e (repaired): a legacy octal literal (`017`, sloppy-mode JavaScript) used to be skipped, because `int(text, 0)`
+    rejects it (`pyInt0`); it is read as octal now, and `089`, which JavaScript reads as decimal, as 89 -/
+theorem F02e_witness : pyInt0 "017".toList = none ∧ tsParse "017".toList = some ⟨15, 0⟩ ∧ tsParse "089".toList = some ⟨89, 0⟩ ∧
+    tsParse "0".toList = some ⟨0, 0⟩ ∧ tsParse "00".toList = some ⟨0, 0⟩ := by decide
 
 /-- tests (not the unbounded claim): each documented literal form is read as its value -/
 example : tsParse "255".toList = some ⟨255, 0⟩ ∧ tsParse "1_000".toList = some ⟨1000, 0⟩ ∧ tsParse "0o17".toList = some ⟨15, 0⟩ ∧
